@@ -952,6 +952,15 @@ func (r *run) opChpass(op core.Op) {
 	if res.aborted || (r.stop && r.c10 != nil) {
 		return
 	}
+	if window == 2 && r.c5 != nil && r.locked && r.mgr.IsLocked() && !r.stop {
+		// Locked inside the window, and the commit found the manager locked:
+		// whatever the commit installed must not be clear-text key material
+		r.env.Count("probe.commit-of-a-passphrase-change-on-a-manager-locked-meanwhile")
+		r.c5.afterLock("passphrase-change-commit-on-locked-manager")
+		if r.stop {
+			return
+		}
+	}
 	if window != 0 {
 		if now := r.mgr.IsLocked(); now != r.locked {
 			r.locked = now
